@@ -186,7 +186,7 @@ def _prepare(job):
         pickle.dump({k.name: (i, inputs[k.name]) for i, k in enumerate(ks)}, fh)
 
 
-def native_batch(reps, workdir, tier, seed, jobs=6, extra_flags=(), fexc=False):
+def native_batch(reps, workdir, tier, seed, jobs=8, extra_flags=(), fexc=False):
     """reps: representative kernels (one per distinct body).  Writes the native driver TUs and starts a helper *process*
     (python -m xv.validate <joblist.json>: plain compile + run, no fork of this process's state, no pipes) that builds and runs them
     in the background; returns ({kernel name: TU path}, number of unsupported signatures).  A TU is finished when <path>.done exists."""
@@ -239,12 +239,12 @@ def helper_main(jl):
         list(tp.map(_helper_one, d['tus']))
 
 
-def wait_result(path, name, max_wait=240):
+def wait_result(path, name, max_wait=20):
     """-> (inputs, [raw bytes | 'TRAP' | None]) | error string"""
     import pickle
     t_end = time.time() + max_wait
     while not os.path.exists(path + '.done'):
-        if time.time() > t_end: return 'native driver result not available after %d s' % max_wait
+        if time.time() > t_end: return 'native driver result not yet available after %d s (body not validated; workers are not held up for the native build)' % max_wait
         time.sleep(0.5)
     idx, inputs = pickle.load(open(path + '.meta', 'rb'))[name]
     res = [None] * len(inputs)
@@ -333,7 +333,7 @@ def _eq(term, val, w):
     return term == z3.BitVecVal(val, term.size())
 
 
-def check_body(run, k, obs, goals, native, timeout_ms=10000):
+def check_body(run, k, obs, goals, native, timeout_ms=10000, budget_s=30):
     """-> dict(agreed, skipped_pre, trapped, inconclusive, mismatches=[...])"""
     out = dict(agreed=0, skipped_pre=0, trapped=0, inconclusive=0, solver=0, mismatches=[])
     if native is None: return out
@@ -348,7 +348,11 @@ def check_body(run, k, obs, goals, native, timeout_ms=10000):
         if ob.kind in ('spec', 'mem') or isinstance(g, bool): continue
         pres.append(z3.Implies(ob.pre, g) if ob.pre is not True else g)
     side = list(ex.side)
+    t_end = time.time() + budget_s
     for rec, raw in zip(inputs, raws):
+        if time.time() > t_end:
+            # instantiating a large formula (64-lane compress / symbolic-index chains) can take seconds per input: wall-clock budget per body
+            out['skipped_time'] = out.get('skipped_time', 0) + 1; continue
         if raw is None: out['inconclusive'] += 1; continue
         ps = subst_pairs(run, rec)
         if ps is None: return out
